@@ -35,7 +35,7 @@ PROFILE = {
 }
 
 CLF_ENCODINGS = ["float10_nan", "int_m1", "int_99", "obj_none", "str_zz",
-                 "str_empty", "str_long", "str_grow"]
+                 "str_empty", "str_long", "str_grow", "intarr_nan"]
 
 
 def enc_class(enc):
@@ -46,6 +46,7 @@ def enc_class(enc):
             "obj_none": "string_labels&sentinel=None",
             "str_zz": "string_labels", "str_empty": "string_labels",
             "str_long": "string_labels",
+            "intarr_nan": "integer_label_array&sentinel=NaN",
             "str_grow": "string_labels",
             "objnum_none": "object_numeric_labels&sentinel=None"}[enc]
 
@@ -56,7 +57,7 @@ def _pool_case(draw):
     kw = {}
     if name.startswith("Parallel"):
         kw["batch_sizes"] = [1]
-    case = draw(gen.pool_case([name], **kw))
+    case = draw(gen.pool_case([name], use_alt=True, **kw))
     case["kind"] = "pool"
     if case["task"] == "reg":
         case["enc2"] = "num_m999"
